@@ -570,7 +570,7 @@ theorem failedTail_run (f1 f2 : Option JVal) (t : Tetraplet) (failedCid : Data.C
       | some (.num rc), some (.str msg) =>
         if rc < -2147483648 ∨ rc > 2147483647 then throwE (.uncatchable .malformedCallServiceFailed) else do
         modifyCtx fun c =>
-          let c := ({ c with subgraphComplete := false }).recordCallCid t.peerPk failedCid
+          let c := c.recordCallCid t.peerPk failedCid
           { c with th := c.th.meetCallEnd res }
         throwE (.catchable (.localServiceError rc msg))
       | _, _ => throwE (.uncatchable .malformedCallServiceFailed) : M StateDescriptor) c = (r, c')) :
@@ -582,7 +582,7 @@ theorem failedTail_run (f1 f2 : Option JVal) (t : Tetraplet) (failedCid : Data.C
       exact ⟨SameCore.refl c, fun sd h => nomatch h⟩
     · simp only [bind, M.bind, modifyCtx, throwE] at h
       injection h with h1 h2; subst h1; subst h2
-      exact ⟨((sameCore_flag c false).trans (sameCore_recordCallCid _ _ _)).trans (sameCore_meetCallEnd _ _), fun sd h => nomatch h⟩
+      exact ⟨(sameCore_recordCallCid _ _ _).trans (sameCore_meetCallEnd _ _), fun sd h => nomatch h⟩
   · simp only [throwE] at h
     injection h with h1 h2; subst h1; subst h2
     exact ⟨SameCore.refl c, fun sd h => nomatch h⟩
